@@ -1287,6 +1287,77 @@ def tls_dump(kind, m):
     return lp(m.verify_data)
 
 
+class _Tok:
+    def __init__(self, toks):
+        self.t, self.i = list(toks), 0
+
+    def z(self):
+        v = self.t[self.i] if self.i < len(self.t) else 0
+        self.i += 1
+        return v
+
+    def lst(self):
+        n = max(self.z(), 0)
+        v = self.t[self.i:self.i + n]
+        self.i += n
+        return v
+
+    def by(self):
+        return bytes(x & 0xFF for x in self.lst())
+
+    def opt(self, f):
+        return f() if self.z() else None
+
+    def cnt(self, f):
+        return [f() for _ in range(max(self.z(), 0))]
+
+
+def tls_undump(kind, toks):
+    """inverse of tls_dump: the dataclass from its token dump (model/TlsCodec.v tk_<message>)"""
+    from aioquic import tls
+    t = _Tok(toks)
+    ext = lambda: (t.z(), t.by())
+    if kind == 1:
+        m = tls.ClientHello(random=t.by(), legacy_session_id=t.by(), cipher_suites=t.lst(), legacy_compression_methods=t.lst())
+        m.key_share = t.opt(lambda: t.cnt(ext)) or []
+        m.supported_versions = t.opt(t.lst) or []
+        m.signature_algorithms = t.opt(t.lst) or []
+        m.supported_groups = t.opt(t.lst) or []
+        m.psk_key_exchange_modes = t.opt(t.lst)
+        sn = t.opt(t.by)
+        m.server_name = None if sn is None else sn.decode("latin-1")
+        al = t.opt(lambda: t.cnt(t.by))
+        m.alpn_protocols = None if al is None else [a.decode("latin-1") for a in al]
+        m.early_data = bool(t.z())
+        m.pre_shared_key = t.opt(lambda: tls.OfferedPsks(identities=t.cnt(lambda: (t.by(), t.z())), binders=t.cnt(t.by)))
+        m.other_extensions = t.cnt(ext)
+        return m
+    if kind == 2:
+        m = tls.ServerHello(random=t.by(), legacy_session_id=t.by(), cipher_suite=t.z(), compression_method=t.z())
+        m.supported_version = t.opt(t.z)
+        m.key_share = t.opt(ext)
+        m.pre_shared_key = t.opt(t.z)
+        m.other_extensions = t.cnt(ext)
+        return m
+    if kind == 4:
+        m = tls.NewSessionTicket(ticket_lifetime=t.z(), ticket_age_add=t.z(), ticket_nonce=t.by(), ticket=t.by())
+        m.max_early_data_size = t.opt(t.z)
+        m.other_extensions = t.cnt(ext)
+        return m
+    if kind == 8:
+        a = t.opt(t.by)
+        m = tls.EncryptedExtensions(alpn_protocol=None if a is None else a.decode("latin-1"), early_data=bool(t.z()))
+        m.other_extensions = t.cnt(ext)
+        return m
+    if kind == 11:
+        return tls.Certificate(request_context=t.by(), certificates=t.cnt(lambda: (t.by(), t.by())))
+    if kind == 13:
+        return tls.CertificateRequest(request_context=t.by(), signature_algorithms=t.opt(t.lst) or [], other_extensions=t.cnt(ext))
+    if kind == 15:
+        return tls.CertificateVerify(algorithm=t.z(), signature=t.by())
+    return tls.Finished(verify_data=t.by())
+
+
 # independent description of each message as a length-prefixed tree (RFC 8446 section 4)
 def I(w, v):
     return ["i", w, int(v)]
@@ -1446,6 +1517,8 @@ def tls_encode(case):
     op = case["op"]
     if op[0] == "pull":
         return [0, op[1]] + lp(B(op[2]))
+    if op[0] == "pushrec":
+        return [2, op[1]] + list(op[2])
     return [1] + tree_tokens(["B", 0, op[1]])      # the message = a 0-byte-prefixed block of its top-level items
 
 
@@ -1457,15 +1530,79 @@ def tls_impl(case):
             b = Buffer(data=B(op[2]))
             m = _tls_funcs()[op[1]][0](b)
             return [0] + tls_dump(op[1], m) + [b.tell()]
+        if op[0] == "pushrec":
+            # op = ["pushrec", kind, dump]: rebuild the dataclass, run the real push_<message>, dump it again
+            m = tls_undump(op[1], op[2])
+            b = Buffer(capacity=400000)
+            _tls_funcs()[op[1]][1](b, m)
+            return [0] + lp(b.data) + tls_dump(op[1], m)
         # "push": op = ["push", tree, hex of the implementation's bytes]; a 0-capacity block prefix is empty
         return [0] + lp(B(op[3]))
     except Exception as e:
         return [errk(e)]
 
 
+TLS_KNOWN = {1: {51, 43, 13, 10, 45, 0, 16, 42, 41}, 2: {43, 51, 41}, 4: {42}, 8: {16, 42}, 13: {13}}
+TLS_DOMAIN = collections.Counter()
+
+
+def tls_in_domain(kind, m):
+    """the X_wf predicates of proofs/TlsRoundtrip.v, written independently over the dataclass"""
+    u8 = lambda v: 0 <= v < 1 << 8
+    u16 = lambda v: 0 <= v < 1 << 16
+    u32 = lambda v: 0 <= v < 1 << 32
+    asc = lambda x: all(ord(c) < 128 for c in x)
+    others = lambda: all(u16(t) and t not in TLS_KNOWN[kind] for t, _ in m.other_extensions)
+    if kind == 1:
+        return (len(m.random) == 32 and all(map(u16, m.cipher_suites)) and all(map(u8, m.legacy_compression_methods))
+                and all(u16(g) for g, _ in m.key_share) and all(map(u16, m.supported_versions)) and all(map(u16, m.signature_algorithms))
+                and all(map(u16, m.supported_groups)) and (m.psk_key_exchange_modes is None or all(map(u8, m.psk_key_exchange_modes)))
+                and (m.server_name is None or asc(m.server_name)) and (m.alpn_protocols is None or all(map(asc, m.alpn_protocols)))
+                and (m.pre_shared_key is None or all(u32(a) for _, a in m.pre_shared_key.identities)) and others())
+    if kind == 2:
+        return (len(m.random) == 32 and u16(m.cipher_suite) and u8(m.compression_method)
+                and (m.supported_version is None or u16(m.supported_version)) and (m.key_share is None or u16(m.key_share[0]))
+                and (m.pre_shared_key is None or u16(m.pre_shared_key)) and others())
+    if kind == 4:
+        return u32(m.ticket_lifetime) and u32(m.ticket_age_add) and (m.max_early_data_size is None or u32(m.max_early_data_size)) and others()
+    if kind == 8:
+        return (m.alpn_protocol is None or asc(m.alpn_protocol)) and others()
+    if kind == 13:
+        return all(map(u16, m.signature_algorithms)) and others()
+    if kind == 15:
+        return u16(m.algorithm)
+    return True
+
+
+def tls_pushrec_oracle(kind, dump):
+    """<message>_roundtrip on the implementation: in the domain, push succeeds or raises OverflowError, and pull(push(m)) == m"""
+    from aioquic.buffer import Buffer
+    pull, push = _tls_funcs()[kind]
+    m = tls_undump(kind, dump)
+    if not tls_in_domain(kind, m):
+        TLS_DOMAIN["outside"] += 1
+        return None
+    b = Buffer(capacity=400000)
+    try:
+        push(b, m)
+    except OverflowError:
+        TLS_DOMAIN["overflow"] += 1
+        return None
+    except Exception as e:
+        return ("push of an in-domain TLS message (type %d) raised %s" % (kind, type(e).__name__), {"codec": "tls", "rule": "push_raise", "message": kind})
+    TLS_DOMAIN["inside"] += 1
+    r = Buffer(data=b.data + b"\xaa\xbb")
+    back = pull(r)
+    if back != m or r.tell() != len(b.data):
+        return ("pull(push(message type %d)) != message" % kind, {"codec": "tls", "rule": "roundtrip", "message": kind})
+    return None
+
+
 def tls_oracle(case):
     from aioquic.buffer import Buffer
     op = case["op"]
+    if op[0] == "pushrec":
+        return tls_pushrec_oracle(op[1], op[2])
     if op[0] != "pull":
         return None
     kind, data = op[1], B(op[2])
@@ -1515,6 +1652,7 @@ def tls_gen(ctx, rng, n):
     for i in range(n):
         kind = kinds[i % len(kinds)]
         m = rand_msg(rng, kind)
+        cases.append({"s": "tls", "op": ["pushrec", kind, tls_dump(kind, m)]})
         try:
             c, bad = tls_push_case(kind, m)
         except (OverflowError, ValueError):
@@ -1537,6 +1675,25 @@ def tls_gen(ctx, rng, n):
             cases.append({"s": "tls", "op": ["pull", kind, H(data[:rng.randint(0, len(data))])]})
         else:
             cases.append({"s": "tls", "op": ["pull", kind, H(bytes([kind]) + rbytes(rng, rng.randint(0, 40)))]})
+    # boundaries of the round-trip domain: blocks that do not fit their length prefix (OverflowError on both sides),
+    # other_extensions reusing a known type (encodes, decodes differently), out-of-range integers (wrap, F12)
+    from aioquic import tls
+    for kind, m in (
+            (4, tls.NewSessionTicket(ticket_nonce=bytes(256))), (4, tls.NewSessionTicket(ticket_nonce=bytes(255), ticket=bytes(65535))),
+            (4, tls.NewSessionTicket(ticket=bytes(65536))), (15, tls.CertificateVerify(algorithm=0x0804, signature=bytes(65536))),
+            (2, tls.ServerHello(random=bytes(32), legacy_session_id=bytes(256), cipher_suite=0x1301, compression_method=0)),
+            (2, tls.ServerHello(random=bytes(32), legacy_session_id=b"", cipher_suite=0x1301, compression_method=0, other_extensions=[(57, bytes(65536))])),
+            (2, tls.ServerHello(random=bytes(32), legacy_session_id=b"", cipher_suite=0x1301, compression_method=0, other_extensions=[(57, bytes(65000)), (58, bytes(600))])),
+            (2, tls.ServerHello(random=bytes(32), legacy_session_id=b"", cipher_suite=0x1301, compression_method=0, other_extensions=[(43, b"\x03\x04")])),
+            (2, tls.ServerHello(random=bytes(31), legacy_session_id=b"", cipher_suite=0x1301, compression_method=0)),
+            (2, tls.ServerHello(random=bytes(32), legacy_session_id=b"", cipher_suite=0x11301, compression_method=256)),
+            (8, tls.EncryptedExtensions(alpn_protocol="h3", other_extensions=[(16, b"\x00\x03\x02h2")])),
+            (11, tls.Certificate(request_context=bytes(256), certificates=[])),
+            (11, tls.Certificate(request_context=b"", certificates=[(bytes(70000), bytes(65535))])),
+            (13, tls.CertificateRequest(request_context=b"", signature_algorithms=[0x0804] * 32767)),
+            (13, tls.CertificateRequest(request_context=b"", signature_algorithms=[0x0804] * 32768)),
+            (20, tls.Finished(verify_data=bytes(48)))):
+        cases.append({"s": "tls", "op": ["pushrec", kind, tls_dump(kind, m)]})
     # calibration witnesses (docs/C17.md): extension_length ignored; empty ALPN list; non-ASCII server name
     sh = bytes([2]) + (2 + 32 + 1 + 2 + 1 + 2 + 6).to_bytes(3, "big") + b"\x03\x03" + bytes(32) + b"\x00" + b"\x13\x01\x00" + b"\x00\x06" + b"\x00\x2b\x00\x00\x03\x04"
     cases.append({"s": "tls", "op": ["pull", 2, H(sh)]})
@@ -1621,6 +1778,7 @@ def run(ctx):
                                   "all CID lengths 0..21,255 x long types x both versions" % (8 if ctx.thorough else 6),
         "f12_out_of_domain_pushes_observed": dict(F12_SEEN),
         "tparams_outside_roundtrip_domain_observed": dict(TP_BOUNDARY),
+        "tls_push_from_record": dict(TLS_DOMAIN),
     })
     return corr.merge_coverage(
         list(suites.values()),
